@@ -1,6 +1,11 @@
 (* Driver for the extracted backend model (IR lowering + usage counting + Lua text generation).
    Case line:  <require: hex or ->  TAB  <resolved S-expression (tools/resolved_io.py)>
-   Output:     OK <hex of the Lua text after the preamble> | PANIC <hex site> | FUEL | READFAIL <msg> *)
+   Output:     OK <hex of the Lua text after the preamble> SCOPED|UNSCOPED:<n> RSOK|RSBAD CFOK|CFBAD:<n> LOOPSOK|LOOPSBAD
+               | PANIC <hex site> | FUEL | READFAIL <msg>
+   (CF.. = CFlow.ir_cf_ok of the model's IR, LOOPS.. = CFlow.loops_ok of the resolved program)
+   Case line:  @cf TAB <instruction kinds of an IR dump, space separated: L loop, B break, X else, E end, I if,
+               F function, l<n> label n, g<n> goto n, . anything else>
+   Output:     CFOK | CFBAD:<index of the first offending instruction> | CFBAD:end *)
 open Backmodel
 
 let rec int_of_pos = function XH -> 1 | XO p -> 2 * int_of_pos p | XI p -> 2 * int_of_pos p + 1
@@ -13,6 +18,27 @@ let hex_of_string s =
     String.iter (fun c -> Buffer.add_string b (Printf.sprintf "%02x" (Char.code c))) s;
     Buffer.contents b end
 
+let rec pos_of_int i = if i <= 1 then XH else if i land 1 = 0 then XO (pos_of_int (i lsr 1)) else XI (pos_of_int (i lsr 1))
+let n_of_int i = if i <= 0 then N0 else Npos (pos_of_int i)
+
+(* CFlow.ir_cf_ok with the position of the first offending instruction *)
+let cf_verdict ops =
+  if ir_cf_ok ops then "CFOK" else
+    (match first_cf_bad ([], false) ops N0 with
+     | Some (n, _) -> "CFBAD:" ^ string_of_int (int_of_n n)
+     | None -> "CFBAD:end")
+
+(* the control-flow checker only looks at the kind of an instruction (and at label numbers) *)
+let skel_op tok =
+  match tok with
+  | "L" -> ILoop | "B" -> IBreak | "X" -> IElse | "E" -> IEnd
+  | "I" -> IIf N0 | "F" -> IFunction (N0, []) | "." -> INil N0
+  | _ ->
+      let num () = n_of_int (int_of_string (String.sub tok 1 (String.length tok - 1))) in
+      if tok <> "" && tok.[0] = 'l' then ILabel (num ())
+      else if tok <> "" && tok.[0] = 'g' then IGoto (num ())
+      else failwith ("bad instruction kind " ^ tok)
+
 let () =
   let fuel = nat_of_int 20000 in
   let ic = open_in Sys.argv.(1) in
@@ -23,6 +49,9 @@ let () =
         let tab = String.index line '\t' in
         let req = String.sub line 0 tab in
         let rest = String.sub line (tab + 1) (String.length line - tab - 1) in
+        if req = "@cf" then
+          print_endline (cf_verdict (List.map skel_op (List.filter (fun t -> t <> "") (String.split_on_char ' ' rest))))
+        else
         let req = if req = "-" then None else Some (Rast_reader.rr_chars (Rast_reader.rr_unhex req)) in
         let r = Rast_reader.read_resolved rest in
         (match backend fuel req r with
@@ -34,7 +63,9 @@ let () =
                             | None -> "UNSCOPED:end")
                        | _ -> "?") in
              let rs = if rs_resolved fuel r then "RSOK" else "RSBAD" in
-             print_endline ("OK " ^ hex_of_string (string_of_chars s) ^ " " ^ sc ^ " " ^ rs)
+             let cf = (match lower fuel r with Ok ops -> cf_verdict ops | _ -> "?") in
+             let lo = if loops_ok r then "LOOPSOK" else "LOOPSBAD" in
+             print_endline ("OK " ^ hex_of_string (string_of_chars s) ^ " " ^ sc ^ " " ^ rs ^ " " ^ cf ^ " " ^ lo)
          | Panic s -> print_endline ("PANIC " ^ hex_of_string (string_of_chars s))
          | OutOfFuel -> print_endline "FUEL")
       with Failure m -> print_endline ("READFAIL " ^ m) | Not_found -> print_endline "READFAIL no-tab")
